@@ -47,7 +47,9 @@ func reportGated(c *vf.Ctx, r gatedResult) {
 		c.Inconclusive("gated schedule " + r.Cfg.key() + ": " + r.Inconcl)
 		return
 	}
-	c.Count("gated_workers_class:"+workerClass(r.Cfg.Workers), 1)
+	for _, cl := range workerClasses(r.Cfg.Workers) {
+		c.Count("gated_workers_class:"+cl, 1)
+	}
 	if r.Cfg.Kind == "watchers" || r.Cfg.Kind == "cstart" {
 		c.Count("schedules:"+r.Cfg.Kind, 1)
 		if r.Cfg.Kind == "cstart" {
@@ -55,7 +57,9 @@ func reportGated(c *vf.Ctx, r gatedResult) {
 		}
 	}
 	if r.Cfg.Kind == "allbusy" && r.AllBusy {
-		c.Count("allbusy_at_shutdown:"+workerClass(r.Cfg.Workers), 1)
+		for _, cl := range workerClasses(r.Cfg.Workers) {
+			c.Count("allbusy_at_shutdown:"+cl, 1)
+		}
 		if r.Workers > 2*runtime.NumCPU() {
 			c.Count("allbusy_at_shutdown_workers_gt_2ncpu", 1)
 			if r.Cfg.Callback != "counter" {
@@ -64,7 +68,9 @@ func reportGated(c *vf.Ctx, r gatedResult) {
 		}
 	}
 	if r.Cfg.Kind == "restart-nowait" || r.Cfg.Restart {
-		c.Count("restart_schedules:"+workerClass(r.Cfg.Workers), 1)
+		for _, cl := range workerClasses(r.Cfg.Workers) {
+			c.Count("restart_schedules:"+cl, 1)
+		}
 	}
 	if r.Cfg.Point != "" {
 		c.Count("gated_windows_entered", 1)
@@ -120,10 +126,14 @@ func reportStress(c *vf.Ctx, r stressResult) {
 		c.Count("stress_runs_race_build", 1)
 	}
 	for _, w := range r.Cfg.Workers {
-		c.Count("stress_pools_workers_class:"+workerClass(w), 1)
+		for _, cl := range workerClasses(w) {
+			c.Count("stress_pools_workers_class:"+cl, 1)
+		}
 	}
 	if r.AllBusyAtShutdown {
-		c.Count("stress_allbusy_at_shutdown:"+workerClass(r.Cfg.Workers[0]), 1)
+		for _, cl := range workerClasses(r.Cfg.Workers[0]) {
+			c.Count("stress_allbusy_at_shutdown:"+cl, 1)
+		}
 		if effWorkers(r.Cfg.Workers[0]) > 2*runtime.NumCPU() {
 			c.Count("stress_allbusy_at_shutdown_workers_gt_2ncpu", 1)
 		}
@@ -540,13 +550,13 @@ func run(c *vf.Ctx) {
 	c.Require("concurrent_start_schedules:fresh", 8)
 	c.Require("concurrent_start_schedules:stopped", 8)
 	c.Require("concurrent_start_schedules:draining", 8)
-	c.Require("allbusy_at_shutdown_workers_gt_2ncpu", c.Pick(30, 100))
+	c.Require("allbusy_at_shutdown_workers_gt_2ncpu", c.Pick(25, 100))
 	c.Require("allbusy_at_shutdown_workers_gt_2ncpu_tasks_call_pool", c.Pick(20, 80))
 	c.Require("allbusy_at_shutdown:2ncpu", 10)
 	c.Require("allbusy_at_shutdown:default", 10)
 	c.Require("allbusy_at_shutdown:1-4", 40)
-	c.Require("gated_workers_class:above-2ncpu", c.Pick(60, 300))
-	c.Require("restart_schedules:above-2ncpu", c.Pick(10, 60))
+	c.Require("gated_workers_class:above-2ncpu", c.Pick(40, 200))
+	c.Require("restart_schedules:above-2ncpu", c.Pick(6, 30))
 	c.Require("stress_allbusy_at_shutdown_workers_gt_2ncpu", c.Pick(30, 1500))
 	c.Require("stress_pools_workers_class:above-2ncpu", c.Pick(200, 10000))
 	c.Require("window:"+ptAfterCheck, 50)
